@@ -28,6 +28,10 @@ pub fn scopes(rep: &Report, checks: Checks) {
     let pool = ["a", "ab", "abc", "b"];
     let nt = named_trees(3, 3, &pool);
     run_structures(rep, "name-prefix family: member names drawn from {a, ab, abc, b} in every sibling-distinct way x all strategies x all selections", &nt, &all_strats, &cheap, checks, true);
+    // D2b: names related by case folding or Unicode normalisation are different names
+    let pool2 = ["k", "K", "\u{e9}", "e\u{301}"];
+    let nt2 = named_trees(2, 2, &pool2);
+    run_structures(rep, "name-relation family 2: member names drawn from {k, K, e-acute (composed), e + combining acute} x all strategies x all selections", &nt2, &all_strats, &cheap, checks, true);
     // D3: pairs of special strings in one container
     let pairs = pair_alphabet_trees();
     run_structures(rep, "string-pair pass: every ordered pair of the string alphabet side by side in 5 container shapes x {Top, All, 2 Custom}", &pairs, &pair_strategies, &cheap, checks, false);
